@@ -139,6 +139,7 @@ def params():
             "(* does __uncancel_task fall back on the CancelledError message (finding C13-F2 is present iff true)? *)\n"
             f"Definition uncancel_message_fallback : bool := {'true' if fallback else 'false'}.\n")
 FUEL = 6000
+SEARCH_BUDGET_AFTER_KNOWN = 80000   # runner: how far to look for a failure that is not a known finding
 MAX_LOOP_STEPS = 3000
 
 
@@ -424,7 +425,7 @@ def family(full):
                             continue
                         variants = [None]
                         if full:
-                            variants += ["shield", "resched", "block", "catch", "cancel"]
+                            variants += ["shield", "resched", "block", "catch", "cancel", "catch-again", "shyield-again"]
                         for v in variants:
                             ids = _Ids()
                             so, si, sl, s2, cp = ids(), ids(), ids(), ids(), ids()
@@ -440,6 +441,12 @@ def family(full):
                                 inner_body = [10, ids(), 0, inner_body]
                             elif v == "cancel":
                                 pre_inner = [8, 1]
+                            elif v == "catch-again":
+                                # the body survives the first CancelledError and blocks again, unshielded, in the same
+                                # scope: only the re-armed __deliver_cancellation interrupts the second operation
+                                inner_body = seq([10, ids(), 0, inner_body], [2, ids(), 2])
+                            elif v == "shyield-again":
+                                inner_body = seq(inner_body, [4, ids()], [2, ids(), 2])
                             inner = [6, si, ki, 0, [b], seq(pre_inner, inner_body)]
                             p = seq([6, so, ko, 0, [a], seq(inner, [2, s2, 1])], [3, cp])
                             out.append((p, "family" + ("-" + v if v else "")))
@@ -550,6 +557,17 @@ def oracle(inp):
     nodes = {}
     _walk(prog, [], nodes)
     n_ext = len(timers) + len(turns)
+    # a scope takes back only its own requests: task.cancelling() never drops below the number of controller cancels
+    # that were accepted so far (nobody else calls uncancel())
+    accepted = 0
+    for e in evs:
+        if e[0] == 4:
+            accepted += 1
+        elif e[0] == 2 and e[5] < accepted:
+            return (f"took-back-foreign-request: after scope {e[1]} exited task.cancelling()={e[5]} although {accepted} "
+                    f"controller cancel(s) had been accepted")
+    if cnt < accepted:
+        return f"took-back-foreign-request: task.cancelling()={cnt} at the end although {accepted} controller cancel(s) had been accepted"
     for e in evs:
         if e[0] != 2:
             continue
